@@ -172,10 +172,12 @@ const (
 	SigTooLong            // 73 bytes (R padded with zeros)
 	SigTooShort           // 7 bytes
 	SigMinimal            // 3006020101020101: strict DER, R = S = 1 (never verifies)
+	SigHalfS              // strict DER with S exactly half the group order (the low-S boundary; does not verify)
+	SigHalfSPlus1         // strict DER with S = half the group order + 1
 	NumSigShapes
 )
 
-var SigNames = []string{"good", "highS", "padR", "padS", "negR", "negS", "badlen", "trailing", "trailing-in", "badseqtag", "badinttag", "zerolenR", "toolong", "tooshort", "minimal"}
+var SigNames = []string{"good", "highS", "padR", "padS", "negR", "negS", "badlen", "trailing", "trailing-in", "badseqtag", "badinttag", "zerolenR", "toolong", "tooshort", "minimal", "S=n/2", "S=n/2+1"}
 
 func derInt(v *big.Int) []byte {
 	b := v.Bytes()
@@ -265,6 +267,10 @@ func SignShape(r *common.Rand, d *big.Int, hash []byte, shape int) []byte {
 			return []byte{0x30, 0x05, 0x02, 0x01, 0x01, 0x02, 0x00}
 		case SigMinimal:
 			return []byte{0x30, 0x06, 0x02, 0x01, 0x01, 0x02, 0x01, 0x01}
+		case SigHalfS:
+			return derSeq(rb, derInt(halfN))
+		case SigHalfSPlus1:
+			return derSeq(rb, derInt(new(big.Int).Add(halfN, big.NewInt(1))))
 		}
 		panic("shape")
 	}
